@@ -1,11 +1,11 @@
 package main
 
 import (
-	"path"
 	"bytes"
 	"fmt"
 	"math/rand"
 	"os"
+	"path"
 	"path/filepath"
 	"regexp"
 	"strconv"
